@@ -9,6 +9,8 @@ From FV.C11.gen Require Import Kernels.
 From FV.C18 Require Import Model Proofs ProofsIndex.
 From FV.C18.gen Require Import Tables.
 Open Scope R_scope.
+(* no sentence of this file may hold the shared Coq build lock for long *)
+Set Default Timeout 240.
 Local Notation A M t := (aff ROps M t).
 
 (* ---- to_polyhedron: every translated face list is closed (each directed edge
